@@ -276,9 +276,10 @@ def _param_decl(p):
     if k == "vec_in":
         return "const std::vector<%s> &%s" % (T, n)
     if k == "vec_out":
-        return "std::vector<%s> &%s +intent(out)" % (T, n)
+        return "std::vector<%s> &%s +intent(out)%s" % (T, n, "+deref(allocatable)" if p.get("alloc") else "")
     if k == "vec_inout":
-        return "std::vector<%s> &%s" % (T, n)
+        # alloc: the Fortran argument is allocatable and is (re)allocated to the size the library left (vectors.yaml vector_iota_inout_alloc)
+        return "std::vector<%s> &%s%s" % (T, n, " +intent(inout)+deref(allocatable)" if p.get("alloc") else "")
     raise ValueError(k)
 
 
